@@ -146,7 +146,7 @@ def simulate_scripts(spec, workdir, tier, dev, seed):
     num = spec["num"][0 if tier == "quick" else 1]
     rc, txt, dt, out = tlc(spec["module"], dst, workdir, spec.get("timeout", 900),
                            extra=["-simulate", "num=%d" % num, "-depth", str(spec.get("depth", 200)), "-seed", str(seed)],
-                           env={"VERIF_OUT": outdir}, workers="1")
+                           env={"VERIF_OUT": outdir, "VERIF_CEX": os.path.join(outdir, "cex.json")}, workers="1")
     if "Error:" in txt and "is violated" not in txt:
         raise Infra("TLC simulation failed, see " + out)
     gen, _ = parse_counts(txt)
@@ -157,9 +157,13 @@ def simulate_scripts(spec, workdir, tier, dev, seed):
             acts = json.load(open(f))
         except Exception:
             continue
-        scripts.append({"id": "%s-%d-%s" % (spec.get("family", "sim"), seed, os.path.basename(f)[:-5]), "family": spec.get("family", ""), "acts": acts})
+        tag = os.path.basename(src)[3:-4].lower()
+        scripts.append({"id": "%s-%d-%s" % (tag, seed, os.path.basename(f)[:-5]), "family": spec.get("family", ""), "acts": acts})
     viol = re.search(r"Invariant (\w+) is violated", txt)
-    return scripts, dict(states=gen, wall=dt, behaviours=len(scripts), model_violation=viol.group(1) if viol else None, out=out)
+    cex = None
+    if viol and os.path.exists(os.path.join(outdir, "cex.json")):
+        cex = {"id": "cex-" + os.path.basename(src), "family": spec.get("family", ""), "acts": json.load(open(os.path.join(outdir, "cex.json")))}
+    return scripts, dict(states=gen, wall=dt, behaviours=len(scripts), model_violation=viol.group(1) if viol else None, out=out, cex=cex)
 
 
 def load_static(patterns):
@@ -228,6 +232,8 @@ ECON_MC = dict(module="MC_Hub.tla", cfg="MC_Econ.cfg", timeout=900,
                quick={"MaxLen": "9"}, thorough={"MaxLen": "14", "MaxBlocks": "3"})
 ECON_SIM = dict(module="MC_Hub.tla", cfg="MC_EconSim.cfg", family="econ", num=(40, 600), depth=200, timeout=3000,
                 quick={"MaxLen": "40"}, thorough={"MaxLen": "70"})
+ECON2_SIM = dict(module="MC_Hub.tla", cfg="MC_Econ2Sim.cfg", family="econ", num=(40, 600), depth=200, timeout=3000,
+                 quick={"MaxLen": "60"}, thorough={"MaxLen": "80"})
 ATTEST_MC = dict(module="MC_Hub.tla", cfg="MC_Attest.cfg", timeout=1500, quick={"MaxLen": "6"}, thorough={"MaxLen": "9"})
 ATTEST_SIM = dict(module="MC_Hub.tla", cfg="MC_AttestSim.cfg", family="attest", num=(40, 600), depth=200, timeout=3000,
                   quick={"MaxLen": "40"}, thorough={"MaxLen": "60"})
@@ -246,7 +252,7 @@ PROPS = {
     "C17": dict(mc=[VALSET_MC], sim=[VALSET_SIM], static=["valset*.ndjson"],
                 watch=["C17:", "conf:keys"],
                 need={"SetKeys/ok": 3, "SetKeys/err": 3}),
-    "C01": dict(mc=[ECON_MC], sim=[ECON_SIM], static=["econ*.ndjson"],
+    "C01": dict(mc=[ECON_MC], sim=[ECON_SIM, ECON2_SIM], static=["econ*.ndjson"],
                 watch=["C01:", "conf:bal", "conf:sup"],
                 need={"ExtDeposit/ok": 3, "Claim/ok": 6, "End/ok": 3, "Send/ok": 5}),
     "C02": dict(mc=[ATTEST_MC], sim=[ATTEST_SIM, ECON_SIM], static=["attest*.ndjson"],
@@ -267,7 +273,7 @@ PROPS = {
     "C12": dict(mc=[ECON_MC], sim=[ECON_SIM], static=["econ*.ndjson"],
                 watch=["C12:", "conf:out", "conf:bal", "conf:pool"],
                 need={"Cancel/ok": 1, "Cancel/err": 1, "End/ok": 3}),
-    "C13": dict(mc=[ECON_MC], sim=[ECON_SIM], static=["econ*.ndjson"],
+    "C13": dict(mc=[ECON_MC], sim=[ECON_SIM, ECON2_SIM], static=["econ*.ndjson"],
                 watch=["C13:", "conf:bat", "conf:pool"],
                 need={"ReqBatch/ok": 1, "Claim/ok": 3, "End/ok": 3}),
 }
@@ -325,7 +331,12 @@ def check_hub_property(prop, tier, seed, replay_file=None):
             s, st = simulate_scripts(spec, workdir, tier, dev, seed)
             log("[%s] simulation %s: %d behaviours, %d states, %.0fs" % (prop, spec["cfg"], len(s), st["states"], st["wall"]))
             if st["model_violation"]:
-                raise Infra("simulation of %s violates %s at model level; see %s" % (spec["cfg"], st["model_violation"], st["out"]))
+                if st.get("cex"):
+                    log("[%s] simulation of the bounded model violates %s; replaying its counterexample (%d steps) on the real application" % (prop, st["model_violation"], len(st["cex"]["acts"])))
+                    cex_scripts.append(st["cex"])
+                    mc_results.append(dict(ok=False, states=0, transitions=0, wall=0, cfg=spec["cfg"], out=st["out"]))
+                else:
+                    raise Infra("simulation of %s violates %s at model level; see %s" % (spec["cfg"], st["model_violation"], st["out"]))
             scripts += s
             sim_stats.append(st)
         scripts += load_static(plan.get("static", []))
@@ -370,7 +381,7 @@ def check_hub_property(prop, tier, seed, replay_file=None):
         byname = collections.Counter((v[2], v[3]) for v in fresh)
         for (c, d), n in byname.most_common(8):
             log("  failed check %s [%s] on %d steps" % (c, d, n))
-        log("  first: behaviour %s step %d: %s" % (first[0], first[1], json.dumps(s["acts"][first[1] - 1]) if s else "?"))
+        log("  first: behaviour %s step %d: %s" % (first[0], first[1], json.dumps(s["acts"][first[1] - 1]) if s and first[1] <= len(s["acts"]) else "?"))
         log("VIOLATION property=%s replay=%s" % (prop, path))
         rc = 1
 
@@ -403,6 +414,193 @@ def check_hub_property(prop, tier, seed, replay_file=None):
     return rc
 
 
+# ------------------------------------------------------------------------------------------- C14 claim identifiers
+CLAIM_FIELDS = {  # Go struct field -> specification field, per event type; None = no effect when applied (not part of the claim)
+    "Deposit": {"EventNonce": "n", "ExternalCoinId": "tok", "Amount": "amt", "Fee": "fee", "Sender": "snd", "ReceiverChainId": "rch",
+                "ExternalReceiver": "rcv", "ExternalHeight": "eh", "TxHash": "txh"},
+    "ToHub": {"EventNonce": "n", "ExternalCoinId": "tok", "Amount": "amt", "Sender": "snd", "CosmosReceiver": "rcv", "ExternalHeight": "eh", "TxHash": "txh"},
+    "Exec": {"ExternalCoinId": "tok", "EventNonce": "n", "ExternalHeight": "eh", "BatchNonce": "bn", "TxHash": "txh", "FeePaid": "fp", "FeePayer": "fpr"},
+    "SSExec": {"EventNonce": "n", "SignerSetTxNonce": "ssn", "ExternalHeight": "eh", "Members": "m", "TxHash": "txh"},
+    "CCExec": {"EventNonce": "n", "InvalidationScope": "scope", "InvalidationNonce": "in", "ReturnData": None, "ExternalHeight": "eh", "TxHash": "txh"},
+}
+
+
+def check_c14(prop, tier, seed, replay_file=None):
+    t0 = time.time()
+    workdir = os.path.join(WORK, prop)
+    shutil.rmtree(workdir, ignore_errors=True)
+    os.makedirs(workdir)
+    dev = current_dev()
+    vh, bt = build_harness()
+    pairs_file = os.path.join(workdir, "pairs.json")
+    dst = os.path.join(workdir, "ClaimId.cfg")
+    tlc_cfg(os.path.join(SPEC, "ClaimId.cfg"), dst, {"Dev": dev_value([d for d in dev if d == "HashOmitsFields"])})
+    rc, txt, dt, out = tlc("ClaimId.tla", dst, workdir, 300, env={"VERIF_OUT": pairs_file}, workers="1")
+    gen, dist = parse_counts(txt)
+    if "No error has been found" not in txt or not os.path.exists(pairs_file):
+        raise Infra("ClaimId design check failed, see " + out)
+    log("[%s] ClaimId.tla: %d pairs enumerated, identifiers distinct on the specification (%.0fs)" % (prop, dist, dt))
+    # non-vacuity: with the deviation switched on the specification itself must merge some pairs
+    dst2 = os.path.join(workdir, "ClaimIdDev.cfg")
+    tlc_cfg(os.path.join(SPEC, "ClaimId.cfg"), dst2, {"Dev": '{"HashOmitsFields"}'})
+    rc2, txt2, dt2, out2 = tlc("ClaimId.tla", dst2, workdir, 300, workers="1")
+    if "DistinctIds is violated" not in txt2 and "HashOmitsFields" not in dev:
+        raise Infra("ClaimId.tla does not distinguish the deviating identifier: vacuous")
+    if replay_file:
+        pairs_file = replay_file
+    res_file = os.path.join(workdir, "result.json")
+    p, rt = run([vh, "claimid", "-pairs", pairs_file, "-out", res_file], 900)
+    if p.returncode != 0:
+        sys.stdout.write(p.stdout.decode(errors="replace")[-2000:])
+        raise Infra("harness claimid failed")
+    res = json.load(open(res_file))
+    # every struct field of every event type must be known to the specification
+    for t, fl in res["structs"].items():
+        for f in fl:
+            if f not in CLAIM_FIELDS[t]:
+                raise Infra("event type %s has a field %s the specification (ClaimId.tla) does not classify" % (t, f))
+    pairs = json.load(open(pairs_file))
+    fresh, known = [], collections.OrderedDict()
+    for r in res["pairs"]:
+        pr = pairs[r["i"]]
+        if pr["a"] == pr["b"]:
+            continue
+        bad = r["hash_equal"] or r["tallied_together"]
+        if pr["kind"] == "field" and pr["field"] == "n":
+            bad = r["tallied_together"]
+        if not bad:
+            continue
+        k = match_known(prop, "C14:TalliedTogether", "%s.%s" % (r["t"], r["field"]))
+        if k:
+            known.setdefault(k["id"], [k, 0])[1] += 1
+        else:
+            fresh.append((r, pr))
+    for kid, (k, n) in known.items():
+        log("KNOWN-FINDING: property=%s %s (%s; hit %d times in this run)" % (prop, k["what"], kid, n))
+    rc = 0
+    if fresh:
+        rdir = os.path.join(ROOT, "evidence", "replay")
+        os.makedirs(rdir, exist_ok=True)
+        path = os.path.join(rdir, "%s-pairs.json" % prop)
+        json.dump([pr for _, pr in fresh], open(path, "w"))
+        for r, pr in fresh[:8]:
+            log("  events of type %s differing in %s (%s) have the same claim hash / were tallied together" % (r["t"], r["field"], pr["kind"]))
+        log("VIOLATION property=%s replay=%s" % (prop, path))
+        rc = 1
+    coverage = dict(states=dist, transitions=gen, traces_validated_against_impl=len(res["pairs"]),
+                    samples=[pairs[0], pairs[-1]], pairs=len(pairs),
+                    pair_kinds=dict(collections.Counter(p["kind"] for p in pairs)),
+                    exhaustive=True, struct_fields=res["structs"], known_findings_hit={k: n for k, (_, n) in known.items()},
+                    rule="one model state per pair of events of the same type that differ in exactly one effect-relevant field or by a shift "
+                         "across a field boundary; each pair is hashed by the real Hash() and submitted through two validators of the real application")
+    write_evidence(prop, tier, seed, coverage, time.time() - t0, len(fresh),
+                   ["field domains have two values per field; sha256 is treated as injective",
+                    "the list of effect-relevant fields is read off ExternalEventProcessor.Handle; the Go struct fields are cross-checked at run time"])
+    return rc
+
+
+# ------------------------------------------------------------------------------------------- C20 Minter connector
+def check_c20(prop, tier, seed, replay_file=None):
+    import random
+    t0 = time.time()
+    workdir = os.path.join(WORK, prop)
+    shutil.rmtree(workdir, ignore_errors=True)
+    os.makedirs(workdir)
+    dev = [d for d in current_dev() if d in ("ResyncMidBlock", "CommandNegativeFee")]
+    vh, bt = build_harness()
+    outdir = os.path.join(workdir, "vectors")
+    os.makedirs(outdir)
+    dst = os.path.join(workdir, "Connector.cfg")
+    subst = {"Dev": dev_value(dev)}
+    subst.update({"MaxBlocks": "2", "MaxTx": "2"} if tier == "quick" else {"MaxBlocks": "3", "MaxTx": "2"})
+    tlc_cfg(os.path.join(SPEC, "Connector.cfg"), dst, subst)
+    rc, txt, dt, out = tlc("Connector.tla", dst, workdir, 3000, env={"VERIF_OUT": outdir, "JAVA_TOOL_OPTIONS": "-Xmx8g -Xss64m"}, workers="8")
+    gen, dist = parse_counts(txt)
+    if "No error has been found" not in txt:
+        raise Infra("Connector design check failed, see " + out)
+    log("[%s] Connector.tla: %d distinct states, %d transitions, CursorConsistent holds over all histories / restart points / acknowledged nonces (%.0fs)" % (prop, dist, gen, dt))
+    vectors = json.load(open(os.path.join(outdir, "vectors.json")))
+    cases = json.load(open(os.path.join(outdir, "commands.json")))
+    if replay_file:
+        rp = json.load(open(replay_file))
+        vectors = rp.get("vectors", [])
+        cases = rp.get("commands", [])
+    elif tier == "quick" and len(vectors) > 8000:
+        random.Random(seed).shuffle(vectors)
+        vectors = vectors[:8000]
+    vf = os.path.join(workdir, "vectors.run.json")
+    json.dump(vectors, open(vf, "w"))
+    rf = os.path.join(workdir, "vectors.res.json")
+    p, rt = run([vh, "connector", "-vectors", vf, "-out", rf], 3000)
+    if p.returncode != 0:
+        sys.stdout.write(p.stdout.decode(errors="replace")[-2000:])
+        raise Infra("harness connector failed")
+    res = json.load(open(rf))
+    bad_v = []
+    stops = 0
+    for v, r in zip(vectors, res):
+        w = v["want"]
+        d = r["disk"]
+        if w["blk"] < v["head"]:
+            stops += 1
+        if "panic" in r or (d["blk"], d["ev"], d["bat"]) != (w["blk"], w["ev"], w["bat"]):
+            bad_v.append((v, r))
+    # command grid
+    def concrete(c):
+        rcp = {"hex": "0x" + "ab" * 20, "bech32": "@bech32", "garbage": "xyz"}[c["rcp"]]
+        fee = {"int": str(c["fee"]), "empty": "", "decimal": "1.5", "exp": "1e3", "space": " 5"}[c["feeclass"]]
+        return {"type": c["type"], "recipient": rcp, "fee": fee, "amount": str(c["amount"])}
+    cf = os.path.join(workdir, "commands.run.json")
+    json.dump([concrete(c) for c in cases], open(cf, "w"))
+    crf = os.path.join(workdir, "commands.res.json")
+    p, rt2 = run([vh, "command", "-cases", cf, "-out", crf], 600)
+    if p.returncode != 0:
+        sys.stdout.write(p.stdout.decode(errors="replace")[-2000:])
+        raise Infra("harness command failed")
+    cres = json.load(open(crf))
+    bad_c = [(c, r) for c, r in zip(cases, cres) if "panic" in r or bool(r.get("ok")) != bool(c["want"])]
+    log("[%s] replayed %d resync vectors (%d stop before the head) and %d command cases on the real connector code" % (prop, len(vectors), stops, len(cases)))
+    if not replay_file and (stops < 10 or sum(1 for c in cases if c["want"]) < 10):
+        raise Infra("vacuous run")
+    fresh, known = [], collections.OrderedDict()
+    for kind, lst in (("C20:CursorConsistent", bad_v), ("C20:CommandValid", bad_c)):
+        for item in lst:
+            detail = "mid-block" if kind == "C20:CursorConsistent" else ("negative-fee" if item[0]["feeclass"] == "int" and item[0]["fee"] < 0 else "other")
+            k = match_known(prop, kind, detail)
+            if k:
+                known.setdefault(k["id"], [k, 0])[1] += 1
+            else:
+                fresh.append((kind, detail, item))
+    for kid, (k, n) in known.items():
+        log("KNOWN-FINDING: property=%s %s (%s; hit %d times in this run)" % (prop, k["what"], kid, n))
+    rc = 0
+    if fresh:
+        rdir = os.path.join(ROOT, "evidence", "replay")
+        os.makedirs(rdir, exist_ok=True)
+        path = os.path.join(rdir, "%s-vectors.json" % prop)
+        json.dump({"vectors": [i[0] for k, d, i in fresh if k == "C20:CursorConsistent"][:50],
+                   "commands": [i[0] for k, d, i in fresh if k == "C20:CommandValid"][:50]}, open(path, "w"))
+        for k, d, i in fresh[:6]:
+            log("  %s [%s]: %s -> %s" % (k, d, json.dumps(i[0])[:200], json.dumps(i[1])[:120]))
+        log("VIOLATION property=%s replay=%s" % (prop, path))
+        rc = 1
+    coverage = dict(states=dist, transitions=gen, traces_validated_against_impl=len(vectors) + len(cases),
+                    samples=[vectors[0], vectors[len(vectors) // 2], cases[0]], resync_vectors=len(vectors), resync_vectors_stopping_before_head=stops,
+                    command_cases=len(cases), command_cases_valid=sum(1 for c in cases if c["want"]),
+                    constants=subst, exhaustive=(tier != "quick" or len(vectors) < 8000),
+                    known_findings_hit={k: n for k, (_, n) in known.items()},
+                    rule="every block history of the bounded model x every consistent cursor x every head x every acknowledged nonce is run through the real "
+                         "LoadStatus + GetLatestMinterBlockAndNonce against a scripted Minter API (loopback HTTP) and the status file compared with the specification's Resync; "
+                         "every command class x fee x amount through the real ValidateAndComplete")
+    write_evidence(prop, tier, seed, coverage, time.time() - t0, len(fresh),
+                   ["relayMinterEvents / relayBatches / relayValsets live in package main of the connector and are modelled, not bound",
+                    "the Minter node API is a scripted fake; the valset nonce (payload value) is not compared"])
+    return rc
+
+
+EXTRA_PROPS = {"C14": check_c14, "C20": check_c20}
+
+
 def main(argv):
     ap = argparse.ArgumentParser()
     ap.add_argument("prop")
@@ -414,6 +612,8 @@ def main(argv):
     try:
         if a.prop in PROPS:
             rc = check_hub_property(a.prop, tier, seed, a.replay)
+        elif a.prop in EXTRA_PROPS:
+            rc = EXTRA_PROPS[a.prop](a.prop, tier, seed, a.replay)
         else:
             raise Infra("no check for " + a.prop)
     except Infra as e:
